@@ -133,7 +133,7 @@ example :
   constructor
   · simp [mapDict, dictClass, dictAttrs, classAttribute, List.mapM_cons, List.mapM_nil]
   · simp [mapJsonDoc, mapJsonItem, mapDict, dictClass, dictAttrs, classAttribute, List.mapM_cons, List.mapM_nil,
-      bind, Except.bind, pure, Except.pure]
+      bind, Except.bind, pure, Except.pure, JVal.isDict]
 
 /-! ### down to the fields of the generated dataclasses -/
 
@@ -232,57 +232,32 @@ theorem filter_types_spec (types : List AType) :
       refine ⟨by intro h; simp [h] at hem, fun t ht hn hq => h1 t ht hn hq, ?_⟩
       intro hl; omega
 
-/-! ### the nillable flag of a class (finding C13-nillable-from-first-occurrence) -/
+/-! ### the nillable flag of a class -/
 
-/-- full strength: a class of which some occurrence is `xsi:nil` comes out of `reduce_classes` nillable -/
-def nillable_any_occurrence : Prop :=
-  ∀ (classes cs : List Cls), reduceClasses classes = some cs →
-    ∀ c ∈ classes, c.nillable = true → ∃ m ∈ cs, m.qname = c.qname ∧ m.nillable = true
+/-- **nillable_any_occurrence** (full strength since `reduce_classes` merges the flag over the group, repair
+c13e-01): a class of which some occurrence is `xsi:nil` comes out of `reduce_classes` nillable, whatever
+the order in which the occurrences were mapped — and a class is nillable only if some occurrence of its
+name is `xsi:nil`. -/
+theorem nillable_any_occurrence (classes cs : List Cls) (h : reduceClasses classes = some cs) :
+    (∀ c ∈ classes, c.nillable = true → ∃ m ∈ cs, m.qname = c.qname ∧ m.nillable = true) ∧
+    (∀ m ∈ cs, m.nillable = true → ∃ c ∈ classes, c.qname = m.qname ∧ c.nillable = true) := by
+  obtain ⟨h1, h2⟩ := reduceClasses_flags classes cs h
+  refine ⟨?_, h2⟩
+  intro c hc hn
+  obtain ⟨m, hm, hq, hnil, _⟩ := h1 c hc
+  exact ⟨m, hm, hq, hnil hn⟩
 
 /-- the occurrences `<i><a>1</a></i>` and `<i xsi:nil="true"/>` in the order in which `reduce_classes` gets them
-for `<r><i xsi:nil="true"/><i><a>1</a></i></r>` (`ClassUtils.flatten` pops inner classes from the end) -/
+for `<r><i xsi:nil="true"/><i><a>1</a></i></r>` (`ClassUtils.flatten` pops inner classes from the end): the former
+witness of the flag taken from the first occurrence -/
 def nillableWitness : List Cls :=
   [{ qname := "i".toList, ns := none, nillable := false, mixed := false,
      attrs := [{ tag := .element, name := "a".toList, ns := none, index := 0, types := [], min := 1, max := 1 }] },
    { qname := "i".toList, ns := none, nillable := true, mixed := false, attrs := [] }]
 
-/-- it is false: the flag is the first occurrence's (`group[0].clone()`), only `mixed` is merged over the group -/
-theorem nillable_not_any_occurrence : ¬ nillable_any_occurrence := by
-  intro h
-  have hr : (reduceClasses nillableWitness).map (fun cs => cs.map (·.nillable)) = some [false] := by decide
-  cases hcs : reduceClasses nillableWitness with
-  | none => simp [hcs] at hr
-  | some cs =>
-    simp only [hcs, Option.map_some, Option.some.injEq] at hr
-    obtain ⟨m, hm, _, hn⟩ := h nillableWitness cs hcs (nillableWitness.getLast (by decide)) (by decide) (by decide)
-    have : m.nillable ∈ cs.map (·.nillable) := List.mem_map.2 ⟨m, hm, rfl⟩
-    rw [hr] at this
-    simp [hn] at this
-
-/-- the provable part: the class gets the flag of the occurrence that is mapped first -/
-theorem nillable_first_occurrence_partial (first : Cls) (rest cs : List Cls)
-    (h : reduceClasses (first :: rest) = some cs) : ∃ m ∈ cs, m.qname = first.qname ∧ m.nillable = first.nillable := by
-  obtain ⟨xs, G, hg⟩ := group_fold_head first rest [] []
-  have hgroups : groupByQName (first :: rest) = (first.qname, first :: xs) :: G := by
-    rw [groupByQName_eq, List.foldl_cons]
-    simpa [groupStep] using hg
-  rw [reduceClasses_eq, hgroups, List.mapM_cons] at h
-  cases hm : reduceGroup (first.qname, first :: xs) with
-  | none => simp [hm] at h
-  | some m =>
-    cases hms : G.mapM reduceGroup with
-    | none => simp [hm, hms] at h
-    | some ms =>
-      simp [hm, hms] at h
-      subst h
-      refine ⟨m, by simp, ?_⟩
-      simp only [reduceGroup, Option.map_eq_some_iff] at hm
-      obtain ⟨attrs, _, hm⟩ := hm
-      subst hm
-      exact ⟨rfl, rfl⟩
-
-/-- the hypothesis is met by the witness, whose first occurrence is the one that is not nil -/
-example : (reduceClasses nillableWitness).isSome = true := by decide
+/-- on the former witness the class is nillable now, in either order -/
+example : (reduceClasses nillableWitness).map (fun cs => cs.map (·.nillable)) = some [true] ∧
+    (reduceClasses nillableWitness.reverse).map (fun cs => cs.map (·.nillable)) = some [true] := by decide
 
 /-! ### the interleaving marker across occurrences -/
 
